@@ -110,8 +110,14 @@ fn panic_class(units: &[UnitIn]) -> &'static str {
     }
 }
 
+#[path = "c16_refs.rs"]
+mod refs;
+
 pub fn run(t: &[&str]) -> String {
     let stream = t[0];
+    if stream == "c16.refs" {
+        return refs::run(t);
+    }
     let mut k = Tok { t, i: 1 };
     let endian = endian(k.s());
     let nunits = k.n();
